@@ -250,10 +250,12 @@ struct Worker
   std::vector<std::pair<std::string, u64>> hist; // runs completed by this process, in order
 };
 
+static bool g_fresh_runs = false; // --fresh 1: every run executes in a process forked from a worker that never ran SUT code
+
 static void worker_main(int in_fd, int out_fd, u64 seed, const RunCtx & ctx)
 {
   quiet_stdio();
-  suite_process_init();
+  if (!g_fresh_runs) suite_process_init();
   FILE * in = fdopen(in_fd, "r");
   char line[512];
   while (fgets(line, sizeof line, in)) {
@@ -262,6 +264,12 @@ static void worker_main(int in_fd, int out_fd, u64 seed, const RunCtx & ctx)
     const Suite * s = find_suite(sname);
     Outcome o;
     if (!s) { o.verdict = "harness-error"; o.detail = "unknown suite"; }
+    else if (g_fresh_runs) {
+      // first-use behaviour of the library (function-local statics, lazily loaded catalogues) only exists
+      // once per process: this worker stays pristine and runs every plan in a child of its own
+      Plan p = s->gen(seed, idx, ctx);
+      o = run_fresh(p, ctx, 3600);
+    }
     else {
       Plan p = s->gen(seed, idx, ctx);
       o = execute(p, ctx);
@@ -435,6 +443,8 @@ static int cmd_check(std::map<std::string, std::string> & args)
   std::string replay_dir = arg_of(args, "replay-dir", verif_dir() + "/replays/" + ctx.prop);
   int det_samples = std::stoi(arg_of(args, "det-samples", "24"));
   int max_gate = std::stoi(arg_of(args, "max-gate", "6"));
+  g_fresh_runs = arg_of(args, "fresh", "0") == "1";
+  ctx.fresh = g_fresh_runs;
 
   // suites with weights "a:3,b:1"
   std::vector<std::pair<std::string, int>> suites;
@@ -456,8 +466,8 @@ static int cmd_check(std::map<std::string, std::string> & args)
 
   mkdir(g_san_dir.c_str(), 0755);
   double t_start = now_s();
-  printf("bxsim check prop=%s tier=%s seed=%llu flavour=%s workers=%d budget_s=%.0f suites=%s\n", ctx.prop.c_str(),
-         ctx.tier.c_str(), (unsigned long long)seed, SIM_FLAVOUR_NAME, W, budget_s, arg_of(args, "suites", "").c_str());
+  printf("bxsim check prop=%s tier=%s seed=%llu flavour=%s workers=%d budget_s=%.0f suites=%s%s\n", ctx.prop.c_str(),
+         ctx.tier.c_str(), (unsigned long long)seed, SIM_FLAVOUR_NAME, W, budget_s, arg_of(args, "suites", "").c_str(), g_fresh_runs ? " fresh-process-per-run" : "");
   fflush(stdout);
 
   std::vector<Worker> ws((size_t)W);
@@ -677,7 +687,7 @@ static int cmd_check(std::map<std::string, std::string> & args)
     std::ofstream f(out_path.c_str());
     f << "{\n";
     f << " \"property_id\": " << json_str(ctx.prop) << ",\n \"tier\": " << json_str(ctx.tier) << ",\n \"seed\": " << seed << ",\n";
-    f << " \"flavour\": " << json_str(SIM_FLAVOUR_NAME) << ",\n";
+    f << " \"flavour\": " << json_str(SIM_FLAVOUR_NAME) << ",\n \"fresh_process_per_run\": " << (g_fresh_runs ? "true" : "false") << ",\n";
     f << " \"runs\": " << agg.runs << ",\n \"runs_ok\": " << agg.ok << ",\n \"violating_runs\": " << agg.violations << ",\n";
     f << " \"distinct\": " << agg.cover.size() << ",\n";
     f << " \"wall_s\": " << wall << ",\n \"batch_wall_s\": " << t_batch << ",\n";
